@@ -274,9 +274,22 @@ impl Kernel {
         self.st.lock().unwrap_or_else(|e| e.into_inner())
     }
 
+    /// Lock for calls made by the running simulated thread: first waits until
+    /// every thread it announced with `will_spawn` has registered, so that
+    /// neither the event order nor thread ids depend on OS timing.
+    fn lock_synced(&self) -> MutexGuard<'_, State> {
+        let mut st = self.lock();
+        if my_tid().is_some() {
+            while st.pending_spawns > 0 && !st.shutdown {
+                st = self.spawn_cv.wait(st).unwrap_or_else(|e| e.into_inner());
+            }
+        }
+        st
+    }
+
     /// Appends an event to the log (hash always, text when tracing).
     pub fn note(&self, kind: &str, data: &str) {
-        let mut st = self.lock();
+        let mut st = self.lock_synced();
         Self::note_locked(&mut st, kind, data);
     }
 
@@ -299,7 +312,7 @@ impl Kernel {
 
     /// Global event sequence number (monotone; used to stamp invoke/return).
     pub fn stamp(&self) -> u64 {
-        let mut st = self.lock();
+        let mut st = self.lock_synced();
         st.seq += 1;
         st.seq
     }
@@ -704,13 +717,13 @@ impl Kernel {
         if let Some(me) = my_tid() {
             let wake = clock::now_ns().saturating_add(d.as_nanos().min(i64::MAX as u128) as i64);
             self.note("sleep", &d.as_nanos().to_string());
-            self.lock().sleep_log.push((me, clock::now_ns(), d.as_nanos().min(u64::MAX as u128) as u64));
+            self.lock_synced().sleep_log.push((me, clock::now_ns(), d.as_nanos().min(u64::MAX as u128) as u64));
             self.yield_with(me, "sleep", Status::Sleeping { wake_ns: wake });
         }
     }
 
     fn site_hit(&self, site: &str) -> (u32, Option<i32>, bool) {
-        let mut st = self.lock();
+        let mut st = self.lock_synced();
         let n = {
             let c = st.site_counts.entry(site.to_string()).or_insert(0);
             *c += 1;
